@@ -1,7 +1,7 @@
 (* C04 -- property theorems only. `_refuted` theorems are facts about the faithful model of the CURRENT code
    (the correspondence check replays their witnesses on the implementation); see known_findings.json. *)
 From Coq Require Import ZArith List Bool.
-From WNTRV Require Import Lib.Sched C04.Proofs.
+From WNTRV Require Import Lib.Sched C04.Proofs C04.AtTime.
 Import ListNotations.
 Local Open Scope Z_scope.
 
@@ -57,6 +57,24 @@ Definition first_closed (tr : option (list (Z * list bool))) : option Z :=
 Example C04_at_time_control_example :
   first_closed (run (mk [{| c_cond := CSim Req 5000 0; c_prio := 3; c_act := (0%nat, false) |}] [])) = Some 5000.
 Proof. vm_compute. reflexivity. Qed.
+(* ... and for EVERY instant, grid, duration and priority: through the whole presolve loop (rule instants in between included) a step is
+   solved at exactly thr -- also off both grids -- with the commanded status; before it the statuses are the initial ones, after it
+   the commanded one; D a multiple of the hydraulic step, 0 < thr <= D, the command changes the link *)
+Theorem C04_at_time_control_exact : forall thr hs rs sc D l v st0 p, 0 < rs -> 0 < hs -> D mod hs = 0 -> 0 < thr <= D ->
+  (l < length st0)%nat -> nth l st0 v <> v ->
+  exists f tr s, steps f (g1 thr hs rs sc D l v st0 p) D (init_state (g1 thr hs rs sc D l v st0 p)) = Some (tr, s) /\
+    In (thr, set_nth st0 l v) tr /\
+    (forall e, In e tr -> (fst e < thr -> snd e = st0) /\ (thr <= fst e -> snd e = set_nth st0 l v)).
+Proof. intros. apply at_time_control_exact; assumption. Qed.
+(* one step of it, from any state of the run: cut at thr when thr lies in (prev, t], untouched otherwise *)
+Theorem C04_at_time_fires_exactly : forall thr hs rs sc D l v st0 p prev t ri st, 0 < rs -> 0 < hs -> prev < thr <= t -> 0 <= thr -> 0 <= ri ->
+  (l < length st)%nat -> nth l st v <> v ->
+  exists ri', 0 <= ri' /\ one_step (g1 thr hs rs sc D l v st0 p) (false, prev, t, ri, st) =
+     Some ((thr, set_nth st l v), (false, thr, thr + hs - (thr + hs) mod hs, ri', set_nth st l v)).
+Proof. intros. apply at_time_fires_exactly; assumption. Qed.
+Theorem C04_at_time_silent_otherwise : forall thr hs rs sc D l v st0 p first prev t ri st, 0 < rs -> 0 <= t -> 0 <= ri -> ~ (prev < thr <= t) ->
+  exists ri', 0 <= ri' /\ one_step (g1 thr hs rs sc D l v st0 p) (first, prev, t, ri, st) = Some ((t, st), (false, t, t + hs - (t + hs) mod hs, ri', st)).
+Proof. intros. apply at_time_silent_otherwise; assumption. Qed.
 (* AT CLOCKTIME 6:00 AM (daily) closes the link at 43200 s instead of 21600 s *)
 Theorem C04_clock_control_daily_refuted :
   first_closed (run (mk [{| c_cond := CClock Req 21600 true 0; c_prio := 3; c_act := (0%nat, false) |}] [])) = Some 43200.
@@ -70,5 +88,8 @@ Print Assumptions C04_simtime_eq_fires_iff.
 Print Assumptions C04_simtime_le_exact_partial.
 Print Assumptions C04_clock_eq_daily_refuted.
 Print Assumptions C04_last_applied_wins.
+Print Assumptions C04_at_time_control_exact.
+Print Assumptions C04_at_time_fires_exactly.
+Print Assumptions C04_at_time_silent_otherwise.
 Print Assumptions C04_clock_control_daily_refuted.
 Print Assumptions C04_rules_on_positive_grid_refuted.
